@@ -57,8 +57,9 @@ class Lemma:
 
 
 class Case:
-    def __init__(self, name, params, assume=()):
+    def __init__(self, name, params, assume=(), stop_after=None):
         self.name, self.params, self.assume = name, params, list(assume)
+        self.stop_after = stop_after  # per-case cut point (statement text prefix): this case is verified up to and including that statement
 
 
 class Outcome:
@@ -354,6 +355,7 @@ def _log_views(eng, s):
     """spec-level views of the effect log: effects (callee names in order), and per-callee argument / result tuples"""
     views = {"log_effects": tuple(e["callee"] for e in s.log if isinstance(e, dict) and e.get("effect"))}
     per = {"log_" + nm.replace(".", "_"): [] for nm in eng.opaque}
+    per["log_setattr"] = []  # attribute writes on opaque objects
     for e in s.log:
         if not isinstance(e, dict):
             continue
@@ -415,7 +417,7 @@ def verify_function(contract, registry, only_cases=None):
         eng = VEngine(registry, label, contract)
         eng.loop_specs = contract.loops
         eng.spec_defs = contract.defs
-        eng.stop_after = contract.stop_after
+        eng.stop_after = getattr(case, "stop_after", None) or contract.stop_after
         eng.opaque = contract.opaque
         eng.allow_unordered = contract.allow_unordered
         fors = sorted((n for n in ast.walk(node) if isinstance(n, ast.For)), key=lambda n: (n.lineno, n.col_offset))
@@ -538,8 +540,8 @@ def verify_function(contract, registry, only_cases=None):
                     raise Unsupported("loop control escaped function body")
             rep.paths += n_ret
             rep.cases[case.name] = {"return_paths": n_ret, "forks": eng.n_forks, "pruned": eng.n_pruned}
-            if contract.stop_after and not eng.stop_fired:
-                ob = eng.oblige("anchor", st, z3.BoolVal(False), "cut point not reached: %s" % contract.stop_after)
+            if eng.stop_after and not eng.stop_fired:
+                ob = eng.oblige("anchor", st, z3.BoolVal(False), "cut point not reached: %s" % eng.stop_after)
                 ob.status, ob.reason = "undecided", "anchor lost"
             # ghost anchors
             for key in contract.ghosts:
